@@ -123,6 +123,11 @@ func stripAddr(s string) string {
 }
 
 func runOnce(sc *Scenario, cfg Config, prefix []int) (Instance, *Exec) {
+	// a trailing -1 records "every thread blocked, only environment events enabled, none
+	// taken": it is where the execution ended, not a choice to replay
+	for len(prefix) > 0 && prefix[len(prefix)-1] < 0 {
+		prefix = prefix[:len(prefix)-1]
+	}
 	inst := sc.New()
 	s, out := vrt.Run(prefix, cfg.MaxSteps, inst.Body)
 	x := &Exec{Sched: s, Out: out, Cost: out.Cost}
